@@ -199,3 +199,27 @@ class program:
             contigs = [vcf.headermeta.ContigHeader(c, l) for c, l in zip(fasta.references, fasta.lengths)]
 
         return contigs
+
+
+class program:
+    def cli(cls, command):
+
+        """Program initialization from cli command"""
+
+        parser = argparse.ArgumentParser('MCMC haplotype assembly')
+
+        for arg in ASSEMBLE_MCMC_PARSER_ARGUMENTS:
+
+            arg.add_to(parser)
+
+        if len(command) < 3:
+
+            parser.print_help()
+
+            sys.exit(1)
+
+        args = parser.parse_args(command[2:])
+
+        arguments = collect_assemble_mcmc_program_arguments(args)
+
+        return cls(cli_command=command, **arguments)
